@@ -8,6 +8,7 @@ import (
 	"go/ast"
 	"go/token"
 	"go/types"
+	"os"
 	"sort"
 	"strings"
 
@@ -53,9 +54,6 @@ var frozenTable = map[string]string{
 	// non-constant arm, which is applied only to the two leaf children of a fast operator (C05 R-FASTPROXY); by R-KIND
 	// a leaf that is not a constant is a variable, whose value is its name.
 	"fetchVariableValueProxy|assert|$1.value.(string)": "n is a variable node at both call sites (TryEval's variable arm; the non-constant leaf child of a fast operator, C05 R-FASTPROXY + C01 R-KIND)",
-	// library contract of sort.SliceStable: less(i, j) is called with 0 <= i, j < len of the slice handed to it, which is
-	// root.children itself (C16 R-LESS checks that the comparator indexes the sorted slice).
-	"optimizeReordering$1|index|$1.children[$2]": "sort.SliceStable calls less with indices of the slice it sorts, which is root.children (C16 R-LESS)",
 	// the slice-backed fetcher tests only the upper bound of the key; keys reach it from variable nodes, whose keys are
 	// values of VariableKeyMap, all >= minKey >= 0 when this fetcher is chosen (C11 R-FETCHGATE); the UndefinedVarKey marker
 	// occurs only in undefined-variable mode, which always takes the map-backed fetcher.
@@ -97,6 +95,9 @@ func (l *ledger) scan(fn *ssa.Function) {
 					return true, why
 				}
 				if ok, why := l.enumIndex(x); ok {
+					return true, why
+				}
+				if ok, why := l.sortLessIndex(fn, x); ok {
 					return true, why
 				}
 				return getBR().indexInRange(x, x.X, x.Index)
@@ -326,7 +327,7 @@ func (l *ledger) assertSafe(ta *ssa.TypeAssert) (bool, string) {
 	k := l.kinds
 	// node.value.(string) under a kind that implies a string value (R-KIND)
 	if base, ok := loadOfField(ta.X, "node", "value"); ok && isStringLike(ta.AssertedType) {
-		poss := k.kindsPossibleAt(ta.Block(), func(n ssa.Value) bool { return n == base || sameValueShape(n, base) })
+		poss := k.kindsUnionAt(ta.Block(), func(n ssa.Value) bool { return n == base || sameValueShape(n, base) })
 		if poss != nil {
 			good := true
 			for kc := range poss {
@@ -351,7 +352,7 @@ func (l *ledger) assertSafe(ta *ssa.TypeAssert) (bool, string) {
 	}
 	// node.value.(LoopEventData) under kind == event
 	if base, ok := loadOfField(ta.X, "node", "value"); ok && typeNameOf(ta.AssertedType) == "LoopEventData" {
-		poss := k.kindsPossibleAt(ta.Block(), func(n ssa.Value) bool { return n == base || sameValueShape(n, base) })
+		poss := k.kindsUnionAt(ta.Block(), func(n ssa.Value) bool { return n == base || sameValueShape(n, base) })
 		if poss != nil && len(poss) == 1 && poss[k.event] {
 			return true, "kind == event dominates: event nodes carry LoopEventData (R-KIND)"
 		}
@@ -784,7 +785,7 @@ func (l *ledger) callSitesPassStringKind(p *ssa.Parameter) (bool, string) {
 			return false, ""
 		}
 		arg := args[idx]
-		poss := k.kindsPossibleAt(e.Site.Block(), func(n ssa.Value) bool { return n == arg || sameValueShape(n, arg) })
+		poss := k.kindsUnionAt(e.Site.Block(), func(n ssa.Value) bool { return n == arg || sameValueShape(n, arg) })
 		if poss == nil || len(poss) == 0 {
 			return false, ""
 		}
@@ -795,4 +796,116 @@ func (l *ledger) callSitesPassStringKind(p *ssa.Parameter) (bool, string) {
 		}
 	}
 	return true, fmt.Sprintf("all %d call site(s) pass a node whose kind is variable, operator or fastOperator at the call (R-KIND: its value is a string)", len(node.In))
+}
+
+// accessPath writes v as root + a string of loads and field selections.
+func accessPath(v ssa.Value) (ssa.Value, string) {
+	path := ""
+	for {
+		switch x := v.(type) {
+		case *ssa.UnOp:
+			if x.Op != token.MUL {
+				return v, path
+			}
+			path = "*" + path
+			v = x.X
+		case *ssa.FieldAddr:
+			path = fmt.Sprintf(".%d", x.Field) + path
+			v = x.X
+		default:
+			return v, path
+		}
+	}
+}
+
+// sortLessIndex: library contract of sort.Slice / sort.SliceStable — less(i, j) is called with 0 <= i, j < len of
+// the slice handed to the sort. An index S'[i] in the comparator is in range when fn is used only as the
+// comparator of such sorts, i is one of the comparator's own index parameters, and S' is written in the comparator
+// exactly as the sorted slice is written at the sort call, over the captured variable (closure literal) or the
+// bound receiver (method value).
+func (l *ledger) sortLessIndex(fn *ssa.Function, ia *ssa.IndexAddr) (bool, string) {
+	sig := fn.Signature
+	if sig.Params().Len() != 2 || sig.Results().Len() != 1 {
+		return false, ""
+	}
+	np := len(fn.Params)
+	if ia.Index != ssa.Value(fn.Params[np-2]) && ia.Index != ssa.Value(fn.Params[np-1]) {
+		return false, ""
+	}
+	root, suffix := accessPath(ia.X)
+	uses := 0
+	bad := false
+	for _, g := range l.w.Funcs {
+		EachInstr(g, func(in ssa.Instruction) {
+			if g == fn || strings.HasPrefix(g.Synthetic, "bound method wrapper") {
+				return
+			}
+			mc, isMC := in.(*ssa.MakeClosure)
+			var bound ssa.Value // what root denotes at the closure creation
+			match := false
+			if isMC {
+				target := mc.Fn.(*ssa.Function)
+				if target == fn {
+					if fv, ok := root.(*ssa.FreeVar); ok {
+						for k, v := range fn.FreeVars {
+							if v == fv && k < len(mc.Bindings) {
+								bound, match = mc.Bindings[k], true
+							}
+						}
+					}
+					if !match {
+						bad = true
+					}
+				} else if strings.HasPrefix(target.Synthetic, "bound method wrapper") && len(mc.Bindings) == 1 {
+					calls := false
+					EachInstr(target, func(in2 ssa.Instruction) {
+						if c, ok := in2.(*ssa.Call); ok && c.Call.StaticCallee() == fn {
+							calls = true
+						}
+					})
+					if calls {
+						if len(fn.Params) == 3 && root == ssa.Value(fn.Params[0]) {
+							bound, match = mc.Bindings[0], true
+						} else {
+							bad = true
+						}
+					}
+				}
+			}
+			if !match {
+				// any other reference to fn (a direct call, a stored function value) voids the contract
+				for _, op := range in.Operands(nil) {
+					if *op == ssa.Value(fn) {
+						bad = true
+					}
+				}
+				return
+			}
+			for _, ref := range referrers(mc) {
+				c, ok := ref.(*ssa.Call)
+				name := ""
+				if ok {
+					name = calleeFullName(&c.Call)
+				}
+				if !ok || (name != "sort.Slice" && name != "sort.SliceStable") || len(c.Call.Args) != 2 || c.Call.Args[1] != ssa.Value(mc) {
+					bad = true
+					continue
+				}
+				sroot, spath := accessPath(unwrapIface(c.Call.Args[0]))
+				broot, bpath := accessPath(bound)
+				if sroot != broot || spath != bpath+suffix {
+					bad = true
+					continue
+				}
+				uses++
+			}
+		})
+	}
+	if os.Getenv("EVALSA_DEBUG") != "" {
+		fmt.Fprintln(os.Stderr, "sortLessIndex", fn.Name(), bad, uses, suffix)
+	}
+	if bad || uses == 0 {
+		return false, ""
+	}
+	return true, "library contract: sort.Slice/SliceStable calls less(i, j) with 0 <= i, j < len of the slice it sorts, and this function is used only as the comparator of sorts of the very slice it indexes"
 }
